@@ -247,9 +247,14 @@ def gen_cases(tier, seed):
         # source and destination on two freshly made filesystems of the same kind: their inode numbers are handed out in the same
         # sequence, so entries of the two trees share numbers (an identity is a device *and* a number); the run is arranged so that
         # a source sub-directory has the number of the first entry of the destination
+        # now and then the creation of one symbolic link is refused (EPERM: a filesystem without links, an immutable directory)
+        r4 = random.Random(seed * 37 + i)
+        denylink = None
+        if deny is None and not onecpu and any(e["k"] == "l" and any(e["p"].startswith(s_ + "/") or e["p"] == s_ for s_ in sources) for e in spec) and r4.random() < 0.15:
+            denylink = r4.choice([1, 1, 2, 3])
         rt = random.Random(seed * 31 + i)
         twin = any(e["p"] == "dst" and e["k"] == "d" for e in pre) and not any(e["k"] == "hard" for e in pre) and rt.random() < 0.12
-        yield {"twin": twin, "onecpu": onecpu, "deny": deny, "fs": "ext4", "spec": spec, "pre": pre, "args": args, "sources": sources, "shapes": shapes, "dstate": dstate,
+        yield {"denylink": denylink, "twin": twin, "onecpu": onecpu, "deny": deny, "fs": "ext4", "spec": spec, "pre": pre, "args": args, "sources": sources, "shapes": shapes, "dstate": dstate,
                "flag": flag, "spell": spell, "driver": driver, "T": flag == "-T",
                "sched": r.choice(["os", "os", "os", "pct"]), "sseed": r.randrange(1 << 30)}
 
@@ -316,6 +321,11 @@ def _run_case(case, sb, res, mounted):
             res["counters"]["unlistable-dir-runs"] = 1
             if run.verdict == "exited" and run.rule("deny")["applied"] == 0:
                 res["counters"]["unlistable-dir-not-reached"] = 1
+        elif case.get("denylink"):
+            run = core.run_xcp(sb, args, {"log_mode": "none", "rules": [{"id": "dl", "sys": "symlink", "under": root + "/", "action": "fault", "errno": 1, "nth": case["denylink"]},
+                                                                       {"id": "dl2", "sys": "symlinkat", "under": root + "/", "action": "fault", "errno": 1, "nth": case["denylink"]}]})
+            if run.verdict == "exited" and (run.rule("dl")["applied"] or run.rule("dl2")["applied"]):
+                res["counters"]["runs-with-a-refused-symlink"] = 1
         elif case.get("onecpu"):
             run = core.run_plain(["taskset", "-c", "5"] + core.xcp_argv(args), root)
             res["counters"]["one-cpu-runs"] = 1
